@@ -3,7 +3,7 @@ CONSTANTS
   Names = {"a", "b"}
   Peers = {"", "p"}
   Dsts = {"a", "*"}
-  Reps = {"ce-entry", "ce-upsert", "legacy"}
+  Reps = {"ce-entry", "ce-upsert", "legacy", "legacy-id", "ce-legacyid"}
   MaxN = 3
   MaxOps = 99
   Mode = "edit"
